@@ -102,6 +102,9 @@ var Mutants = []Mutant{
 	{ID: "steprange-cached-per-statement", Props: []string{"C10"}, Rule: "R-FRESH", File: "pkg/evaluator/evaluator.go", Find: "\tsRange := &stepRange{\n\t\tcur:  start,\n\t\tstop: stop,\n\t\tstep: step,\n\t}\n", Replace: "\tsRange := stepRangeCache[r]\n\tif sRange == nil {\n\t\tsRange = &stepRange{}\n\t\tstepRangeCache[r] = sRange\n\t}\n\tsRange.cur, sRange.stop, sRange.step = start, stop, step\n",
 		Find2: "func (e *Evaluator) newStepRange(", Replace2: "var stepRangeCache = map[*parser.StepRange]*stepRange{}\n\nfunc (e *Evaluator) newStepRange(",
 		Expect: "newStepRange#ranger-fresh", Describe: "one cached stepRange per for statement: recursion through the loop shares the state"},
+	{ID: "for-blank-body-fast-path", Props: []string{"C14"}, Rule: "R-YIELD", File: "pkg/evaluator/evaluator.go", Find: "\tfor r.next(e.scope, loopVarName) {\n\t\tval, err := e.evalLoopBlock(f.Block)", Replace: "\tif len(f.Block.Statements) == 0 {\n\t\tfor r.next(e.scope, loopVarName) {\n\t\t}\n\t\treturn &noneVal{}, nil\n\t}\n\tfor r.next(e.scope, loopVarName) {\n\t\tval, err := e.evalLoopBlock(f.Block)", Expect: "evalFor#loop", Describe: "a for loop with an empty body steps its range without stop test or yield"},
+	{ID: "resolve-remembers-outer", Props: []string{"C16", "C17"}, Rule: "R-SLOTMAX", File: "pkg/bytecode/symbol.go", Find: "\treturn s.outer.Resolve(name)\n}", Replace: "\tobj, ok = s.outer.Resolve(name)\n\tif ok {\n\t\ts.store[name] = obj\n\t}\n\treturn obj, ok\n}", Expect: "Resolve#symbol-store-write", Describe: "Resolve caches outer symbols in the inner table: a later Define in the block returns the outer slot"},
+	{ID: "vm-stack-smaller-than-bound", Props: []string{"C17"}, Rule: "R-VMSTACK", File: "pkg/bytecode/vm.go", Find: "stack:        make([]value, StackSize),", Replace: "stack:        make([]value, StackSize/2),", Expect: "push#bounded-store", Describe: "the stack is allocated smaller than the bound push tests"},
 	// C08
 	{ID: "printf-composite-as-pointer", Props: []string{"C08"}, Rule: "R-ADDRPRINT", File: "pkg/evaluator/value.go", Find: "\t\treturn unwrapBasicvalue(v.V)\n\tdefault:\n\t\treturn v.String()\n\t}\n", Replace: "\t\treturn unwrapBasicvalue(v.V)\n\t}\n\treturn val\n", Expect: "sprintf#fmt-dynamic-args", Describe: "printf \"%d\" [1 2] prints a heap address"},
 	{ID: "mapstring-go-order", Props: []string{"C08", "C12"}, Rule: "R-MAPRANGE", File: "pkg/evaluator/value.go", Find: "func (m *mapVal) String() string {\n\tpairs := make([]string, 0, len(m.Pairs))\n\tfor _, key := range *m.Order {\n\t\tpairs = append(pairs, key+\":\"+m.Pairs[key].String())", Replace: "func (m *mapVal) String() string {\n\tpairs := make([]string, 0, len(m.Pairs))\n\tfor key, v := range m.Pairs {\n\t\tpairs = append(pairs, key+\":\"+v.String())", Expect: "(*mapVal).String#maprange", Describe: "maps print in Go map order"},
